@@ -125,6 +125,24 @@ def conc_run(ctx, rounds):
     return lines, races, p.stderr[-8000:]
 
 
+def history_run(ctx, rounds):
+    """API histories over a pool of collections, under the race detector"""
+    tag = os.path.join(ctx.dir, 'history-%d.txt' % rounds)
+    if os.path.exists(tag):
+        d = json.load(open(tag))
+        return d['lines'], d['races'], d['stderr']
+    hb, log = build_harness_race(ctx)
+    if hb is None:
+        ctx.violations.append(('race-enabled harness does not build', write_replay(ctx, 'harness_build.txt', log[-6000:]), False))
+        return None, 0, ''
+    p = subprocess.run([hb, 'history', '-seed', str(ctx.seed), '-n', str(rounds)], stdout=subprocess.PIPE, stderr=subprocess.PIPE,
+                       text=True, timeout=3600, env=dict(os.environ, GORACE='halt_on_error=0'))
+    lines = [l for l in p.stdout.split('\n') if l.startswith('history ')]
+    races = p.stderr.count('WARNING: DATA RACE')
+    json.dump({'lines': lines, 'races': races, 'stderr': p.stderr[-8000:]}, open(tag, 'w'))
+    return lines, races, p.stderr[-8000:]
+
+
 def lean_build(targets=('Nject', 'NjectGen', 'NjectProofs', 'NjectProps', 'njmodel')):
     rc, log = sh(['lake', 'build'] + list(targets), cwd=LEAN, timeout=3600)
     return rc == 0, log
